@@ -25,7 +25,9 @@ EXPLANATION = (
     "partial block (R8); the stream primitives it relies on for multi-file sets - relative seek = position + offset, position = "
     "in-file position + data of the preceding files, offset -> (file, in-file offset), advance-to-next-file loops - are the "
     "ones C02 certifies (R9). Not decided: the integer arithmetic of the plan over all (nsamps, gulp, skipback) - a "
-    "Presburger statement - and sample values."
+    "Presburger statement in general; the one instance found by reading (F02: a single `if` correction of the remainder lets "
+    "full blocks run past the range when gulp/2 < skipback < gulp) is covered by R8's requirement that the correction be a loop - "
+    "and sample values."
 )
 READERS = "sigpyproc.readers"
 
@@ -404,6 +406,33 @@ def check_reader(prog: Program, res: Result, fn: FuncInfo, kind: str) -> None:
             lskip = [vv for o, vv, ss in pm.target_values(ki2) if o == "last"]
             if lskip and norm(lskip[0]) != "0":
                 problems.append("the final block is followed by a rewind")
+    # every full block must end inside the requested range: (nreads-1)*(g-s) + g <= nsamps  <=>  remainder >= skipback.
+    # The quotient/remainder must therefore be corrected *until* remainder >= skipback (a loop), or plans with
+    # skipback > gulp/2 must be rejected; a single `if` correction over-reads for gulp/2 < skipback < gulp.
+    if len(pm.divmods) == 1 and isinstance(pm.divmods[0].targets[0], ast.Tuple):
+        q, r = (norm(e) for e in pm.divmods[0].targets[0].elts)
+        loops_ = [s for s in body_walk(fn.node) if isinstance(s, ast.While) and norm(s.test) in (f"{r} < skipback", f"skipback > {r}")]
+        ifs_ = [s for s in body_walk(fn.node) if isinstance(s, ast.If) and norm(s.test) in (f"{r} < skipback", f"skipback > {r}")]
+        half_guard = [g for g in pm.guards if norm(g.test) in ("2 * skipback > gulp", "skipback > gulp // 2", "skipback * 2 > gulp", "gulp < 2 * skipback")]
+        corr = loops_ or ifs_
+        if not corr:
+            problems.append("the quotient/remainder are not corrected when the remainder is smaller than skipback (the last full block would end "
+                            "past the requested range)")
+        else:
+            body = corr[0].body
+            okdec = any(isinstance(s, ast.AugAssign) and norm(s.target) == q and isinstance(s.op, ast.Sub) and norm(s.value) == "1" for s in body) or \
+                any(isinstance(s, ast.Assign) and norm(s.targets[0]) == q and norm(s.value) in (f"{q} - 1",) for s in body)
+            env_ = PolyEnv()
+            okrem = any(isinstance(s, ast.Assign) and norm(s.targets[0]) == r and
+                        env_.poly(s.value) == env_.poly(ast.parse(f"nsamps - {q} * (gulp - skipback)", mode="eval").body) for s in body) or \
+                any(isinstance(s, ast.AugAssign) and norm(s.target) == r and isinstance(s.op, ast.Add) and
+                    env_.poly(s.value) == env_.poly(ast.parse("gulp - skipback", mode="eval").body) for s in body)
+            if not (okdec and okrem):
+                problems.append(f"the correction does not move one full block into the remainder ({q} -= 1; {r} = nsamps - {q}*(gulp-skipback))")
+            if not loops_ and not half_guard:
+                problems.append(f"the remainder is corrected only once (`if {r} < skipback`): for gulp/2 < skipback < gulp it can still be smaller than "
+                                f"skipback, so full blocks run past the requested range (gulp=10, skipback=8, nsamps=11 reads up to sample 16) - "
+                                f"iterate the correction or reject such plans")
     if problems:
         res.bad("R8", fn, pm.comp_stmt, "; ".join(problems), key=key)
     else:
@@ -546,6 +575,12 @@ MUTANTS = [
      "old": "        return 8 // self.nbits if self.unpack else 1", "new": "        return 8 // self.nbits if self.nbits < 4 else 1"},
     {"id": "c01-dtype-table-16", "file": "sigpyproc/io/bits.py", "expect": "C01.R10",
      "old": "16: \"<u2\"", "new": "16: \"<u1\""},
+    {"id": "c01-revert-F02", "file": R, "expect": "C01.R8",
+     "old": "        ends_at_eof = start + nsamps == self.header.nsamples\n        nreads, lastread = divmod(nsamps, (gulp - skipback))\n        # Every full read must end inside the requested range, i.e. leave at\n        # least ``skipback`` samples for the last read\n        while lastread < skipback:",
+     "new": "        ends_at_eof = start + nsamps == self.header.nsamples\n        nreads, lastread = divmod(nsamps, (gulp - skipback))\n        if lastread < skipback:"},
+    {"id": "c01-correction-dropped", "file": R, "expect": "C01.R8",
+     "old": "        ends_at_eof = start + nsamps == self.header.nsamples\n        nreads, lastread = divmod(nsamps, (gulp - skipback))\n        # Every full read must end inside the requested range, i.e. leave at\n        # least ``skipback`` samples for the last read\n        while lastread < skipback:\n            nreads -= 1\n            lastread = nsamps - (nreads * (gulp - skipback))\n",
+     "new": "        ends_at_eof = start + nsamps == self.header.nsamples\n        nreads, lastread = divmod(nsamps, (gulp - skipback))\n"},
     {"id": "c01-unbounded-read", "file": R, "expect": "C01.R2",
      "old": "                memoryview(read_buffer)[:expected_nbytes],", "new": "                read_buffer,"},
     {"id": "c01-unpack-unbounded", "file": R, "expect": "C01.R2",
